@@ -47,7 +47,7 @@ def run(tier: str, seed: int) -> int:
         "non-trivial = at least two accepted steps"
     )
     solvers = ["solver", "mle", "dynamic"] if tier == "quick" else ["solver", "mle", "mle_nocorr", "dynamic", "dynamic_relin"]
-    n = 4 if tier == "quick" else 10
+    n = 4 if tier == "quick" else 6
     pair_names = ["ties", "dense", "twins"] if tier == "quick" else list(PAIRS)
     profs = [("flat", "I_1", 1)] if tier == "quick" else [("flat", "I_1", 1), ("valley", "I_7_8", 1), ("tight_then_loose", "PI_7_8", F(1, 4)), ("loose_then_tight", "I_1_2", 4)]
 
